@@ -69,6 +69,13 @@ func runC12(r *core.Run) {
 		{"union", "SELECT k, b FROM t UNION SELECT k, b FROM u;"},
 		{"except", "SELECT k FROM t EXCEPT SELECT k FROM u;"},
 		{"analytic", "SELECT id, RANK() OVER (PARTITION BY k ORDER BY a) AS r, SUM(a) OVER (PARTITION BY b) AS s FROM t;"},
+		// fractions that have no exact binary form: the result of a float sum depends on the order of the additions,
+		// so any per-worker partial sums show in the last digits
+		{"sum-frac", "SELECT SUM(f) AS s, AVG(f) AS m, VAR(f) AS v, STDEV(f) AS d, MEDIAN(f) AS md FROM t;"},
+		{"group-frac", "SELECT k, SUM(f) AS s, AVG(f) AS m, VARP(f) AS v FROM t GROUP BY k;"},
+		{"group-frac2", "SELECT b, SUM(f * 1.1) AS s, COUNT(DISTINCT f) AS c FROM t GROUP BY b HAVING SUM(f) > 0;"},
+		{"analytic-frac", "SELECT id, SUM(f) OVER (PARTITION BY k) AS s, AVG(f) OVER (ORDER BY id) AS m, SUM(f) OVER () AS tot FROM t;"},
+		{"update-frac", "UPDATE t SET f = f * 1.07 WHERE k > 1; COMMIT; SELECT SUM(f) FROM t;"},
 		{"subquery", "SELECT id FROM t WHERE k IN (SELECT k FROM u WHERE a > 0);"},
 		{"insert-select", "CREATE TABLE `w.csv` (id, k, n); INSERT INTO `w.csv` SELECT t.id, t.k, u.id FROM t JOIN u ON t.k = u.k; COMMIT;"},
 		{"update", "UPDATE t SET a = a + 1 WHERE k = 1; DELETE FROM t WHERE b IS NULL; COMMIT;"},
@@ -85,7 +92,7 @@ func runC12(r *core.Run) {
 	var jobs []job
 	tables := map[int][2]*rtable{}
 	for _, n := range sizes {
-		t := genTable(r, "t", []string{"id", "a", "b", "k"}, []colGen{genID, genNum(3), genText, genInt(5)}, n)
+		t := genTable(r, "t", []string{"id", "a", "b", "k", "f"}, []colGen{genID, genNum(3), genText, genInt(5), genFrac}, n)
 		u := genTable(r, "u", []string{"id", "a", "b", "k"}, []colGen{genID, genNum(3), genText, genInt(5)}, 12)
 		tables[n] = [2]*rtable{t, u}
 		for _, p := range programs {
